@@ -47,6 +47,11 @@ def step (d : DSt) (line : String) : DSt × String :=
     if failsBeforeCommit fail ks.eraseDups.length then (d, "new=[] err=injected") else
     let (st', nk) := put d.st ks
     ({ d with st := st', syncFailed := d.syncFailed || fail == ks.eraseDups.length + 3 }, s!"new={showL nk} err=nil")
+  | some "putclose" =>
+    -- Close (twice, concurrently) while the Put is inside its first datastore call: the operation in flight completes and
+    -- is acknowledged, both Closes return, the reopened keystore holds the result
+    let (st', nk) := put d.st (ids (kv "keys"))
+    ({ d with st := st' }, s!"new={showL nk} err=nil closes=2 {contents st'}")
   | some "del" =>
     let ks := ids (kv "keys")
     let fail := (kv "fail").toNat!
